@@ -455,10 +455,10 @@ SPECS['C10'] = dict(
     require={'any': {'histories': 5000, 'inRoundActions': 50000, 'selfUnsub': 5000, 'unsubOther': 3000, 'nestedNotifies': 5000}},
     evidence=subject_evidence('C05 histories whose callbacks run seeded scripts while being notified: subscribe a new observer, unsubscribe self / an already-called / a not-yet-called observer '
                               '(via handle or subject), mute, unmute, invalidate any target, call notify again (nesting <= 3), or throw (the exception must reach the caller of that notify and the round ends there). The script acts on the real Subject and on the model together; '
-                              'the model keeps one snapshot per active round and predicts the next invocation; a destruction token per observer must die exactly once and no later than the '
-                              'return of the outermost notify. non-trivial = history with >=1 in-round action; distinct = distinct histories. 3 per mille of the cases are bursts instead: one callback '
+                              'the model keeps one snapshot per active round and predicts the next invocation; a destruction token per observer must die exactly once, never while the observer is subscribed, '
+                              'and at the latest with the Subject. non-trivial = history with >=1 in-round action; distinct = distinct histories. 3 per mille of the cases are bursts instead: one callback '
                               'subscribes and drops (or keeps) 255 .. 131072 observers and then unsubscribes a neighbour that has not been called yet'),
-    assumptions=['an observer removed during a round may be destroyed immediately or at any time up to the return of the outermost notify',
+    assumptions=['when a removed observer object is destroyed is not judged (at once, at the end of the round or later), only that it is never destroyed while subscribed, and exactly once at the latest with its Subject',
                  'callbacks do not destroy the Subject itself'],
     manifest=dict(engine='h_subject', text='The same co-simulation with scripted callbacks that mutate the Subject mid-round (including self-unsubscribe and nested notify); ASan decides memory safety, '
                   'the model decides skipped / deferred / continued delivery, tokens decide destruction.',
